@@ -506,6 +506,45 @@ def update_case(rng):
     return case, None
 
 
+def rewrite_ops(rng, n):
+    """correspondence of the LEGACY rewrite path (Model/V1Rewrite.lean, op v1_rewrite_content) with v1rewrite.rfd_from_content: generated contents with
+    one to three legacy patterns, occurrences on separate or shared lines, the four line-ending regimes, missing occurrences"""
+    ops = []
+    vps = ["{pycalver}", "{semver}", "v{year}{month}{build}{release}", "{year}.{month}.{MINOR}", "v{year}.{doy}-{build_no}"]
+    raws = ["{version}", "{pep440_version}", "ver={version};", "pkg=={pep440_version}", "badge/{version}-blue", "({version})", "v: {version} end"]
+    for _ in range(n):
+        vp = rng.choice(vps)
+        d, vj = gen_record(rng)
+        d2, vj2 = gen_record(rng)
+        r_old = impl.v1_format(vj, vp)
+        if "ok" not in r_old:
+            continue
+        chosen = rng.sample(raws, rng.randint(1, 3))
+        sep = rng.choice(["\n", "\n", "\r\n", "\r"])
+        lines = ["# header", "plain text"]
+        for k, raw in enumerate(chosen):
+            try:
+                from bumpver import v1patterns
+                occ = impl.v1_format(vj, v1patterns._normalized_pattern(vp, raw))
+            except Exception:
+                occ = {}
+            if "ok" not in occ:
+                continue
+            text = occ["ok"]
+            if rng.random() < 0.15:
+                continue                          # this pattern has no occurrence: NoPatternMatch
+            if k > 0 and rng.random() < 0.35:
+                lines[-1] = lines[-1] + rng.choice(["  ", " and ", "\t"]) + text        # shared line
+            else:
+                lines.append(rng.choice(["", "see ", "  "]) + text + rng.choice(["", " # x", " ."]))
+        lines.append("tail")
+        content = sep.join(lines) + (sep if rng.random() < 0.6 else "")
+        order = list(chosen)
+        rng.shuffle(order)
+        ops.append({"op": "v1_rewrite_content", "patterns": [[vp, raw] for raw in order], "vinfo": vj2, "content": content})
+    return ops
+
+
 def shared_line_case(rng):
     """LEGACY engine: two different configured patterns match on ONE line and the bump changes the LENGTH of the version (9 -> 10): both
     occurrences must show the new version and every other byte of the line must stay (C03 / C04 for the legacy rewrite path).  The
@@ -608,6 +647,12 @@ def run(chk, driver, tier):
         chk.count("update")
         judge(case, verdict)
 
+    def _rw_impl(o):
+        return impl.v1_rewrite_content(o["patterns"], o["vinfo"], o["content"])
+    rwops = rewrite_ops(rng, 4000 if thorough else 300)
+    before_bad = len(chk.disagreements)
+    chk.correspond(rwops, _rw_impl, driver, label="v1_rewrite_content")
+    chk.disagreements = chk.disagreements[:before_bad] + [b for b in chk.disagreements[before_bad:] if "unsupported" not in b["impl"]]
     for _ in range(40 if thorough else 8):
         case, verdict = shared_line_case(rng)
         chk.count("legacy_shared_line")
